@@ -610,3 +610,34 @@ def inject_fault(rng, r):
         n = rng.choice(cands)
         n["resources"].append({"name": "own_cost", "type": "additive", "value": E.num(1)})
     return r, kind
+
+
+
+def native_numbers(doc, as_float=False):
+    """QREF values that are plain integer literals become native ints (or, for the float twin, integer-valued floats)."""
+    import copy
+    import re
+
+    d = copy.deepcopy(doc)
+
+    def conv(v):
+        if isinstance(v, str) and re.fullmatch(r"\(?-?\d+\)?", v):
+            n = int(v.strip("()"))
+            return float(n) if as_float else n
+        return v
+
+    def go(n):
+        for p in n.get("ports", []):
+            p["size"] = conv(p["size"])
+        for r in n.get("resources", []):
+            r["value"] = conv(r["value"])
+        rep = n.get("repetition")
+        if rep:
+            rep["count"] = conv(rep["count"]) if not as_float else rep["count"]
+            for k, v in list(rep["sequence"].items()):
+                if k != "type":
+                    rep["sequence"][k] = conv(v)
+        for c in n.get("children", []):
+            go(c)
+    go(d["program"])
+    return d
